@@ -507,7 +507,7 @@ PROPS = {
                 "deadlock is reported (unrealised predictions are counted in the evidence). Non-trivial: a trial in which two sessions "
                 "copy/move between the same two mailboxes in opposite directions; distinct by rendered trial.",
         "assumptions": ["schedules are those the Go scheduler produces under varying GOMAXPROCS and workloads, not an enumeration: a deadlock or race that needs a schedule which was never produced is not seen (limit of the technique, see DESIGN.md)",
-                        "'completes' means within 20 s on in-memory connections (normal latency: well below a millisecond per command)",
+                        "'completes' means within 60 s on in-memory connections (normal latency: well below a millisecond per command)",
                         "failures depend on the schedule: the replay file is the trial plus the server goroutine dump; rapid cannot shrink them"],
         "units": [
             plain("c14", "TestReplayScenarios", race=True),
